@@ -1171,23 +1171,10 @@ def c11_all(mir, ctx):
     return c11_b64_group(mir, ctx) + protocol_groups(mir, ctx, {"reject"})
 
 
-# --------------------------------------------------------------------------
-# C07: the validation gate of Insert::exec (bounded unrolling of its loops)
-# --------------------------------------------------------------------------
-
-def c07_insert_gate_group(mir, ctx):
-    """The validation phase of Insert::exec -- from the table lookup to the point where it starts
-    reading/mutating (Table::stream_name) -- with its loops unrolled (each block at most 3 times per
-    path), rows/columns/values as opaque objects, lengths symbolic, `Column::is_valid_value` an
-    uninterpreted predicate.  Iterators are modelled by (underlying collection, position), kept in
-    the per-path heap: the k-th element of a collection has ONE identity however often and however
-    (iter, zip, enumerate, indexing) it is visited, so the laws do not depend on how the loops are
-    written (one pass or several)."""
-    cands = [f for n, fs in mir.fns.items() for f in fs if n.endswith("::exec") and f.args and "Insert" in f.args[0][1]]
-    if len(cands) != 1:
-        raise EncodingError("Insert::exec not found uniquely in the MIR dump (%d)" % len(cands))
-    fn = cands[0]
-    lens = {}
+def iter_models(ctx, lens):
+    """Models of slices/iterators by (underlying collection, position) kept in the per-path heap: the
+    k-th element of a collection has ONE identity however often and however (iter, zip, enumerate,
+    indexing) it is visited.  Returns (models, what_of, coll)."""
 
     def memo_len(key):
         if key not in lens:
@@ -1279,6 +1266,38 @@ def c07_insert_gate_group(mir, ctx):
     def m_len(ex, callee, args, pc, events):
         return [(pc, events, memo_len(coll(what_of(ex, args[0]))))]
 
+    def m_deref(ex, callee, args, pc, events):
+        return [(pc, events, OpaqueV("slice:" + coll(what_of(ex, args[0]))))]
+
+    models = [
+        (r"as Deref(Mut)?>::deref(_mut)?$", m_deref),
+        (r"impl \[.*\]>::iter(_mut)?$", m_iter), (r"as IntoIterator>::into_iter$", m_into_iter),
+        (r"as Iterator>::zip::<", m_zip), (r"as Iterator>::enumerate$", m_enumerate), (r"as Iterator>::next$", m_next),
+        (r"as Index(Mut)?<usize>>::index(_mut)?$", m_index),
+        (r"Vec::<.*>::len$|impl \[.*\]>::len$", m_len),
+    ]
+    return models, what_of, coll
+
+
+# --------------------------------------------------------------------------
+# C07: the validation gate of Insert::exec (bounded unrolling of its loops)
+# --------------------------------------------------------------------------
+
+def c07_insert_gate_group(mir, ctx):
+    """The validation phase of Insert::exec -- from the table lookup to the point where it starts
+    reading/mutating (Table::stream_name) -- with its loops unrolled (each block at most 3 times per
+    path), rows/columns/values as opaque objects, lengths symbolic, `Column::is_valid_value` an
+    uninterpreted predicate.  Iterators are modelled by (underlying collection, position), kept in
+    the per-path heap: the k-th element of a collection has ONE identity however often and however
+    (iter, zip, enumerate, indexing) it is visited, so the laws do not depend on how the loops are
+    written (one pass or several)."""
+    cands = [f for n, fs in mir.fns.items() for f in fs if n.endswith("::exec") and f.args and "Insert" in f.args[0][1]]
+    if len(cands) != 1:
+        raise EncodingError("Insert::exec not found uniquely in the MIR dump (%d)" % len(cands))
+    fn = cands[0]
+    lens = {}
+    it_models, what_of, coll = iter_models(ctx, lens)
+
     def m_is_valid_value(ex, callee, args, pc, events):
         b = ctx.fresh_bool("valid")
         return [(pc, events + [("is_valid_value", what_of(ex, args[0]), what_of(ex, args[1]), b.term)], BoolV(b.term))]
@@ -1292,14 +1311,10 @@ def c07_insert_gate_group(mir, ctx):
     models = [
         (r"BTreeMap::<String, Rc<Table>>::get::<", m_get_table),
         (r"<Rc<Table> as Deref>::deref$", lambda ex, callee, args, pc, events: [(pc, events, OpaqueV("table"))]),
-        (r"as Deref>::deref$", m_deref),
         (r"Table::columns$", lambda ex, callee, args, pc, events: [(pc, events, OpaqueV("slice:columns"))]),
-        (r"impl \[.*\]>::iter$", m_iter), (r"as IntoIterator>::into_iter$", m_into_iter),
-        (r"as Iterator>::zip::<", m_zip), (r"as Iterator>::enumerate$", m_enumerate), (r"as Iterator>::next$", m_next),
-        (r"as Index<usize>>::index$", m_index),
-        (r"Vec::<.*>::len$|impl \[.*\]>::len$", m_len), (r"Column::is_valid_value$", m_is_valid_value),
+        (r"Column::is_valid_value$", m_is_valid_value),
         (r"Column::name$", lambda ex, callee, args, pc, events: [(pc, events, OpaqueV("column-name"))]),
-    ]
+    ] + it_models
 
     def stop_at(f, bb, term):
         if "Table::stream_name" in term:
@@ -1356,6 +1371,161 @@ def c07_insert_gate_group(mir, ctx):
     return [g]
 
 
+# --------------------------------------------------------------------------
+# C08: reference accounting inside Update::exec (bounded unrolling)
+# --------------------------------------------------------------------------
+
+def c08_update_accounting_group(mir, ctx):
+    """Update::exec with every loop unrolled to 2 visits, everything outside the crate arbitrary:
+    whenever it reaches the final write, every `ValueRef::create` (a new reference taken in the pool
+    for an overwritten cell) is matched by a `ValueRef::remove` of that cell's previous reference."""
+    cands = [f for n, fs in mir.fns.items() for f in fs if n.endswith("::exec") and f.args and "Update" in f.args[0][1]]
+    if len(cands) != 1:
+        raise EncodingError("Update::exec not found uniquely in the MIR dump (%d)" % len(cands))
+    fn = cands[0]
+
+    def what_of(ex, a):
+        v = ex.load(a)
+        return getattr(v, "what", repr(v))
+
+    cell_n = [0]
+
+    def m_index_mut(ex, callee, args, pc, events):
+        cell_n[0] += 1
+        ident = "cell#%d(%s)" % (cell_n[0], what_of(ex, args[0])[:40])
+        return [(pc, events + [("cell", ident)], OpaqueV(ident))]
+
+    def m_remove(ex, callee, args, pc, events):
+        return [(pc, events + [("remove", what_of(ex, args[0]))], TupleV([]))]
+
+    def m_create(ex, callee, args, pc, events):
+        return [(pc, events + [("create", what_of(ex, args[0]))], OpaqueV("new-ref"))]
+
+    def m_bool(name):
+        return lambda ex, callee, args, pc, events: [(pc, events, BoolV(ctx.fresh_bool(name).term))]
+
+    models = [
+        (r"as IndexMut<usize>>::index_mut$", m_index_mut), (r"ValueRef::remove$", m_remove), (r"ValueRef::create$", m_create),
+        (r"Table::has_column$", m_bool("has_column")), (r"Column::is_valid_value$", m_bool("valid")), (r"Value::to_bool$", m_bool("cond")),
+        (r"Table::get_column$", lambda ex, callee, args, pc, events: [(pc, events, EnumV(variant=1, fields=[OpaqueV("column")]))]),
+        (r"Table::index_for_column_name$", lambda ex, callee, args, pc, events: [(pc, events, EnumV(variant=1, fields=[ctx.fresh_int("col_index", "usize")]))]),
+        (r"Option::<.*>::unwrap$", lambda ex, callee, args, pc, events: [(pc, events, (lambda o: o.fields[0] if isinstance(o, EnumV) and o.variant in (1, "Some") and o.fields else OpaqueV("unwrapped"))(ex.load(args[0])))]),
+    ]
+    models = [m for m in models if m[1] is not None]
+
+    def stop_at(f, bb, term):
+        if "Table::write_rows::<" in term:
+            return "proceed"
+        return None
+
+    ex = M.Exec(mir, ctx, models=models, stop_at=stop_at, havoc_unknown=True, max_paths=60000)
+    ex.max_revisit = 2
+    ex.no_inline = [r"Table::(stream_name|name|columns|long_string_refs)$", r"Expr::(eval|column_names)$", r"Row::new$", r"Table::read_rows",
+                    r"ValueRef::to_value$", r"closure"]
+    from .mir_protocol import struct_fields
+    qsrc = open(os.path.join(REPO, "src/internal/query.rs")).read()
+    ufields = struct_fields(qsrc, "Update")
+    ex.new_obj("update", [OpaqueV("update." + f) for f in ufields])
+    outs = ex.run(fn, [M.ObjV("update"), OpaqueV("comp"), OpaqueV("pool"), OpaqueV("tables")])
+    from .mir_protocol import _confirm as _scenarios
+    g = Group("update_accounting", ["query::Update::exec (loops unrolled to 2 visits)", "value::ValueRef::create", "value::ValueRef::remove"],
+              confirm=_scenarios,
+              note="on every path of Update::exec that reaches the final write, each overwritten cell releases its previous reference exactly "
+                   "once and takes exactly one new reference: the events are pairs remove(cell) ... create(value), never a create without its remove")
+    nproceed = 0
+    for k, o in enumerate(outs):
+        if o.kind != "stopped" or o.msg != "proceed":
+            continue
+        nproceed += 1
+        seq = [e for e in o.events if e[0] in ("cell", "remove", "create")]
+        ok = True
+        why = ""
+        pending_cell = None
+        removed = False
+        for e in seq:
+            if e[0] == "cell":
+                pending_cell, removed = e[1], False
+            elif e[0] == "remove":
+                if pending_cell is None or e[1] != pending_cell or removed:
+                    ok, why = False, "a reference is released that is not the visited cell's (or twice): %r" % (e,)
+                removed = True
+            elif e[0] == "create":
+                if not removed:
+                    ok, why = False, "a new reference is taken for a cell whose previous reference was not released (reference count leaks)"
+                removed = False
+                pending_cell = None
+        if not ok:
+            g.queries.append(Query("unpaired_%d" % k, o.pc, "unsat", note=why))
+        else:
+            g.queries.append(Query("paired_%d" % k, ["false"], "unsat"))
+        if seq:
+            g.witness.append(Query("w_%d" % k, o.pc, "sat"))
+    if nproceed < 2 or not g.witness:
+        raise EncodingError("update accounting: %d paths reach the final write, %d with updated cells" % (nproceed, len(g.witness)))
+    return [g]
+
+
+def c08_delete_accounting_group(mir, ctx):
+    """The `retain` closure of Delete::exec (one row per call), its loop over the row's cells
+    unrolled to 3 visits: a row that is deleted (closure returns false) releases the reference of
+    EVERY cell it visited, exactly once; a row that is kept (returns true) releases nothing."""
+    cands = [f for n, fs in mir.fns.items() for f in fs if re.search(r"::exec::\{closure#0\}$", n) and len(f.args) == 2
+             and "Vec<ValueRef>" in f.args[1][1] and f.ret == "bool"]
+    # Delete::exec's closure is the one that calls ValueRef::remove
+    cands = [f for f in cands if "ValueRef::remove" in f.text]
+    if len(cands) != 1:
+        raise EncodingError("the retain closure of Delete::exec was not found uniquely (%d candidates)" % len(cands))
+    fn = cands[0]
+    lens = {}
+    it_models, what_of, coll = iter_models(ctx, lens)
+
+    def m_remove(ex, callee, args, pc, events):
+        return [(pc, events + [("remove", what_of(ex, args[0]))], TupleV([]))]
+
+    def m_bool(name):
+        return lambda ex, callee, args, pc, events: [(pc, events, BoolV(ctx.fresh_bool(name).term))]
+
+    models = [(r"ValueRef::remove$", m_remove), (r"Value::to_bool$", m_bool("condition_true"))] + it_models
+    ex = M.Exec(mir, ctx, models=models, havoc_unknown=True)
+    ex.max_revisit = 4
+    ex.no_inline = [r"Expr::eval$", r"Row::new$", r"ValueRef::to_value$", r"closure", r"Table::"]
+    outs = ex.run(fn, [RefV(OpaqueV("closure-env")), RefV(OpaqueV("row"))])
+    from .mir_protocol import _confirm as _scenarios
+    g = Group("delete_accounting", ["query::Delete::exec::{closure#0} (the retain predicate; cell loop unrolled)", "value::ValueRef::remove"],
+              confirm=_scenarios,
+              note="per row of Delete::exec: if the row is deleted, the reference held by every visited cell is released exactly once; if it is "
+                   "kept, nothing is released")
+    n = 0
+    for k, o in enumerate(outs):
+        if o.kind == "panic":
+            continue
+        if o.kind != "return":
+            continue
+        n += 1
+        kept = o.value
+        elems = [e[1] for e in o.events if e[0] == "elem" and re.fullmatch(r"row\[\d+\]", e[1])]
+        removes = [e[1] for e in o.events if e[0] == "remove"]
+        kept_term = kept.term if isinstance(kept, BoolV) else None
+        if kept_term is None:
+            raise EncodingError("the retain closure returns %r" % (kept,))
+        # deleted (returns false): every visited cell removed exactly once, nothing else
+        bad_del = sorted(removes) != sorted(set(elems)) or len(set(removes)) != len(removes)
+        if bad_del:
+            g.queries.append(Query("deleted_row_leaks_%d" % k, o.pc + [s_not(kept_term)], "unsat",
+                                   note="a deleted row releases %r but visited cells %r" % (removes, elems)))
+        if removes:
+            g.queries.append(Query("kept_row_released_%d" % k, o.pc + [kept_term], "unsat", note="a row that is kept releases references %r" % (removes,)))
+        g.witness.append(Query("w_%d" % k, o.pc, "sat"))
+    if n < 3:
+        raise EncodingError("delete accounting: only %d return paths" % n)
+    return [g]
+
+
+def c08_all(mir, ctx):
+    from .mir_protocol import protocol_groups
+    return protocol_groups(mir, ctx, {"drop_table"}) + c08_update_accounting_group(mir, ctx) + c08_delete_accounting_group(mir, ctx)
+
+
 def _proto(which):
     def build(mir, ctx):
         from .mir_protocol import protocol_groups
@@ -1365,7 +1535,7 @@ def _proto(which):
 
 BUILDERS = {"C18": c18_groups, "C19": c19_groups, "C14": c14_groups, "C20": c20_all, "C09": c20_groups,
             "C01": _proto({"mutators", "finish", "close"}), "C10": _proto({"mutators", "finish"}),
-            "C15": _proto({"finish", "close"}), "C16": _proto({"readonly"}), "C08": _proto({"drop_table"}), "C04": _proto({"reject"}), "C11": c11_all, "C07": c07_insert_gate_group}
+            "C15": _proto({"finish", "close"}), "C16": _proto({"readonly"}), "C08": c08_all, "C04": _proto({"reject"}), "C11": c11_all, "C07": c07_insert_gate_group}
 
 
 def native_confirm_c18(vals, work):
